@@ -12,6 +12,7 @@
 #include <signal.h>
 #include <sys/mman.h>
 #include <fcntl.h>
+#include <pthread.h>
 
 #define NH 1024
 static struct json_object *H[NH];
@@ -20,6 +21,7 @@ static struct obuf out;
 static char **tokv; static int tokcap;
 
 static long base_live;
+static unsigned long base_serial;
 
 /* ---- destruction log: userdata delete callbacks ---- */
 #define DLOG_MAX 4096
@@ -100,6 +102,73 @@ static void cmd_parse(int nt, char **t)
 	free(buf); free(b);
 }
 
+/* PD <flags> <depth> <chunk> <hex>   parse under a depth limit on a small-stack thread, reporting resource peaks.
+ *   chunk 0: one call with len = n+1 (text + NUL); chunk k>0: calls of k bytes, then a final 1-byte call with the NUL
+ *   -> = <err> <global end> <nonnull> peak=<blocks> stack=<bytes> calls=<n> <dump>
+ */
+struct pd_job { struct json_tokener *tok; const unsigned char *b; size_t n; int chunk; struct json_object *o; size_t gend; int calls; char *stack_hi; };
+static void *pd_thread(void *arg)
+{
+	struct pd_job *j = (struct pd_job *)arg; char here; size_t off = 0;
+	j->stack_hi = &here;
+	if (j->chunk <= 0) {
+		char *buf = exact_copy(j->b, j->n + 1);
+		j->o = json_tokener_parse_ex(j->tok, buf, (int)j->n + 1); j->calls = 1;
+		j->gend = json_tokener_get_parse_end(j->tok);
+		free(buf);
+		return NULL;
+	}
+	for (;;) {
+		size_t len = (size_t)j->chunk; char *buf;
+		if (off >= j->n + 1) break;
+		if (len > j->n + 1 - off) len = j->n + 1 - off;
+		buf = exact_copy(j->b + off, len);
+		j->o = json_tokener_parse_ex(j->tok, buf, (int)len); j->calls++;
+		j->gend = off + json_tokener_get_parse_end(j->tok);
+		free(buf);
+		if (json_tokener_get_error(j->tok) != json_tokener_continue) break;
+		off += len;
+	}
+	return NULL;
+}
+static void cmd_parse_depth(int nt, char **t)
+{
+	size_t n; unsigned char *b; struct pd_job j; pthread_t th; pthread_attr_t at; int flags, depth; enum json_tokener_error e;
+	if (nt < 5) { ob_puts(&out, "! PD args"); return; }
+	flags = (int)L(t[1]); depth = (int)L(t[2]);
+	b = unhex(t[4], &n);
+	memset(&j, 0, sizeof j);
+	j.tok = json_tokener_new_ex(depth);
+	if (!j.tok) { ob_puts(&out, "= notok"); free(b); return; }
+	json_tokener_set_flags(j.tok, flags);
+	j.b = b; j.n = n; j.chunk = (int)L(t[3]);
+	vf_reset_peaks();
+	pthread_attr_init(&at); pthread_attr_setstacksize(&at, 256 * 1024);
+	if (pthread_create(&th, &at, pd_thread, &j) != 0) { ob_puts(&out, "! pthread"); free(b); return; }
+	pthread_join(th, NULL);
+	e = json_tokener_get_error(j.tok);
+	ob_printf(&out, "= %d %zu %d peak=%ld stack=%ld calls=%d ", (int)e, j.gend, j.o != NULL, vf_peak_blocks - base_live,
+	          vf_stack_low ? (long)(j.stack_hi - vf_stack_low) : -1L, j.calls);
+	if (j.o || e == json_tokener_success) {
+		/* dump only a hash-sized prefix of very large results */
+		struct obuf tmp = {0}; dump_node(&tmp, j.o, 0);
+		if (tmp.n > 4000) { ob_printf(&out, "big:%zu", tmp.n); } else ob_puts(&out, tmp.b ? tmp.b : "n");
+		free(tmp.b);
+	} else ob_putc(&out, '-');
+	json_object_put(j.o);
+	json_tokener_free(j.tok);
+	free(b);
+}
+
+/* TN <depth> -> = null | ok */
+static void cmd_toknew(int nt, char **t)
+{
+	struct json_tokener *tok = json_tokener_new_ex((int)L(t[1]));
+	(void)nt;
+	ob_puts(&out, tok ? "= ok" : "= null");
+	json_tokener_free(tok);
+}
+
 /* ---------------- build / dump / serialize ---------------- */
 static void cmd_build(int nt, char **t)
 {
@@ -144,6 +213,8 @@ static void dispatch(int nt, char **t)
 {
 	const char *c = t[0];
 	if (!strcmp(c, "P")) cmd_parse(nt, t);
+	else if (!strcmp(c, "PD")) cmd_parse_depth(nt, t);
+	else if (!strcmp(c, "TN")) cmd_toknew(nt, t);
 	else if (!strcmp(c, "B")) cmd_build(nt, t);
 	else if (!strcmp(c, "D")) cmd_dump(nt, t);
 	else if (!strcmp(c, "S")) cmd_ser(nt, t);
@@ -167,6 +238,7 @@ int main(int argc, char **argv)
 			release_all();
 			dlog_n = 0;
 			base_live = vf_live_blocks;
+			base_serial = vf_next_serial();
 			vf_bad_frees = 0;
 			ob_printf(&out, "C %s\n", nt > 1 ? tokv[1] : "?");
 			flush_out();
@@ -178,7 +250,7 @@ int main(int argc, char **argv)
 			ob_printf(&out, "E live=%ld bad=%ld loc=%ld", vf_live_blocks - base_live, vf_bad_frees, vf_loc_live);
 			if (vf_live_blocks - base_live > 0) {
 				const void *p, *site; size_t sz;
-				if (vf_live_since(0, &p, &sz, &site)) ob_printf(&out, " leak_size=%zu", sz);
+				if (vf_live_since(base_serial, &p, &sz, &site)) ob_printf(&out, " leak_size=%zu", sz);
 			}
 			ob_putc(&out, '\n');
 			if (out.n > (1 << 15)) flush_out();
